@@ -109,7 +109,10 @@ func (c *Ctx) domFacts(b *ssa.BasicBlock) []DomFact {
 			}
 		}
 	}
-	// b itself may be the target of a dominating edge from its idom (handled above since d starts at Idom)
+	// a block of a new (virtually inlined) helper inherits the facts holding at its unique call site
+	if site := c.activeSite(b.Parent()); site != nil && site.Block() != nil {
+		out = append(out, c.domFacts(site.Block())...)
+	}
 	return out
 }
 
@@ -860,6 +863,22 @@ func (c *Ctx) factClobbered(f DomFact, use ssa.Instruction, fx *Facts) bool {
 		return false
 	}
 	fn := use.Parent()
+	if f.If != nil && f.If.Parent() != fn {
+		// fact from the call site of an inlined helper: keep it only if nothing reachable from the
+		// caller stores the fields it reads (and it reads no call results)
+		if risky[nil] {
+			return true
+		}
+		set, _ := c.reach([]*ssa.Function{f.If.Parent()}, nil)
+		for fld := range risky {
+			for _, s := range c.storesTo(fld) {
+				if set[s.Fn] {
+					return true
+				}
+			}
+		}
+		return false
+	}
 	clob := func(in ssa.Instruction) bool {
 		switch x := in.(type) {
 		case *ssa.Store:
@@ -1298,14 +1317,41 @@ func (c *Ctx) runNP(r *Report, rule string, scope map[*ssa.Function]bool, allow 
 		fx := c.newFacts(fn)
 		sites := c.npSites(fn)
 		sites = append(sites, c.nilSites(fn)...)
+		// a new helper with several call sites is analysed once per call site; an obligation
+		// is discharged only if it is discharged in every context
+		var contexts []ssa.CallInstruction
+		if c.isNew(fn) && c.inlineSite(fn) == nil {
+			if cs, asV := c.callersOf(fn); len(asV) == 0 && len(cs) >= 2 && len(cs) <= 4 {
+				for _, x := range cs {
+					contexts = append(contexts, x.Call)
+				}
+			}
+		}
 		for _, s := range sites {
 			r.Sites++
 			fname := c.fname(fn)
 			var res npResult
-			if s.kind == "nil" {
-				res = c.npNil(s, fx)
+			eval := func() npResult {
+				if s.kind == "nil" {
+					return c.npNil(s, fx)
+				}
+				return c.npDischarge(s, fx)
+			}
+			if len(contexts) == 0 {
+				res = eval()
 			} else {
-				res = c.npDischarge(s, fx)
+				res = npResult{ok: true}
+				for _, site := range contexts {
+					c.frames = append(c.frames, site)
+					one := eval()
+					c.frames = c.frames[:len(c.frames)-1]
+					if !one.ok {
+						res = one
+						res.why += " [in the context of the call at " + c.ipos(site) + "]"
+						break
+					}
+					res.by = one.by + fmt.Sprintf(" (in each of %d call contexts)", len(contexts))
+				}
 			}
 			if res.ok {
 				r.OK(rule, fname, s.construct, c.ipos(s.in), res.by)
